@@ -1,7 +1,8 @@
 """Implementation side of C18: drive the real scalar converters of sdc11073 on generated inputs.
 
 stdin: {"ts_window": [lo, hi], "ts_ns": [...], "ts_floats": [[m, e], ...], "ts_exact": [["int"|"dec", str], ...],
-        "ts_lex": [...], "dec_vals": [[neg, digits, exp], ...], "dec_lex": [...], "int_vals": [...], "int_lex": [...],
+        "ts_lex": [...], "dec_vals": [[neg, digits, exp], ...], "dec_lex": [...], "decf_vals": [["float", neg, m, e] | ["int", str]],
+        "decf_lex": [...], "int_vals": [...], "int_lex": [...],
         "bool_lex": [...], "enum": seed, "dur_vals": [["float"|"int"|"dec", repr], ...], "dur_lex": [...],
         "dt_vals": [...], "dt_lex": [...], "wiring": 1}
 stdout (last line): one JSON object with one list per stream.  Floats never leave this process as floats:
@@ -243,6 +244,54 @@ def _(cases):
         d = guarded(D.to_py, s)
         res.append([dec_tuple(d), dec_to_xml(d)])
     out['dec_lex'] = res
+
+
+# ------------------------------------------------------------------ decimals, float / int flavour
+# DecimalConverter.to_xml accepts float and int (float path: _float_to_xml); with USE_DECIMAL_TYPE = False to_py returns
+# float (a '.' in the text) or int.  The flag is a class attribute: set for these streams only, restored afterwards.
+def num_out(v):
+    if is_err(v):
+        return v
+    if isinstance(v, bool):
+        return badtype(v)
+    if isinstance(v, float):
+        m = me(v)
+        return m if is_err(m) else ['float', m, math.copysign(1.0, v) < 0]
+    if isinstance(v, int):
+        return ['int', str(v)]
+    return badtype(v)
+
+
+def float_mode(fn):
+    old = D.USE_DECIMAL_TYPE
+    D.USE_DECIMAL_TYPE = False
+    try:
+        return fn()
+    finally:
+        D.USE_DECIMAL_TYPE = old
+
+
+@stream('decf_vals')
+def _(cases):
+    def go():
+        res = []
+        for c in cases:
+            x = int(c[1]) if c[0] == 'int' else math.copysign(math.ldexp(c[2], c[3]), -1.0 if c[1] else 1.0)
+            s = typed(guarded(D.to_xml, x), str)
+            if is_err(s):
+                res.append([s, None, None])
+                continue
+            back = guarded(D.to_py, s)
+            again = None if is_err(back) or not isinstance(back, (int, float)) else typed(guarded(D.to_xml, back), str)
+            res.append([s, num_out(back), again])
+        return res
+    out['decf_vals'] = float_mode(go)
+
+
+@stream('decf_lex')
+def _(cases):
+    out['decf_lex'] = float_mode(lambda: [num_out(guarded(D.to_py, s)) for s in cases])
+    out['decf_flag_restored'] = D.USE_DECIMAL_TYPE is True
 
 
 # ------------------------------------------------------------------ integers
